@@ -1346,7 +1346,7 @@ class UnitQuaternion(Quaternion):
         v = base.getvector(v, 3)
         base.isscalar(theta)
         theta = base.getunit(theta, unit)
-        return cls(s=math.cos(theta / 2), v=math.sin(theta / 2) * v, norm=False, check=False)
+        return cls(s=math.cos(theta / 2), v=math.sin(theta / 2) * base.unitvec(v), norm=False, check=False)
 
     @classmethod
     def EulerVec(cls, w):
